@@ -369,7 +369,7 @@ Definition w_sv (with_header_entry : bool) : server :=
      sv_backends := ["A"; "B"; "C"]; sv_body := 0%Z; sv_xff := false |}.
 
 Definition w_rq (host method path : string) (hs : list (string * string)) (ip : string) : request :=
-  {| rq_host := host; rq_method := method; rq_path := path; rq_rawpath := ""; rq_headers := hs; rq_ip := ip; rq_body := 0%Z |}.
+  {| rq_host := host; rq_method := method; rq_path := path; rq_rawpath := ""; rq_headers := hs; rq_ip := ip; rq_body := 0%Z; rq_sni := "" |}.
 
 Definition flag1 : quirks := {| q_cache_key_concat := true; q_cache_headerless_after_header := false;
   q_cache_status_before_ipfilter := false; q_cache_rule_filter_skipped := false |}.
